@@ -1,6 +1,72 @@
-(* C19: placeholder until the proofs are merged; a concrete run of the model. *)
-From BCL Require Import Model.Api.
+(* C19: Introspection options only observe.
+
+   Model: Model/Api.v `interpret name src d t s` (Parse + Execute with OptDisasm d, OptTrace t,
+   OptStats s), output = list of tagged lines (the Go code writes all of them to the one output
+   writer).  Every theorem quantifies over all sources and all eight option combinations. *)
+From BCL Require Import Model.Api Proofs.OptionsProofs.
+Open Scope N_scope.
+
+(* blocks, binding, runtime error (with position), warnings, diagnostics and the whole parse result
+   (compiled program, statistics) are the same with and without the options *)
+Theorem C19_results_equal : forall name src d t s,
+  let io := snd (interpret name src d t s) in
+  let io0 := snd (interpret name src false false false) in
+  fst (interpret name src d t s) = fst (interpret name src false false false) /\
+  io_kind io = io_kind io0 /\ io_diags io = io_diags io0 /\ io_fail io = io_fail io0 /\
+  io_blocks io = io_blocks io0 /\ io_binding io = io_binding io0 /\ io_warn io = io_warn io0 /\
+  io_res io = io_res io0.
+Proof. exact C19_results_equal_proj. Qed.
+Print Assumptions C19_results_equal.
+
+(* the lines printed by the program are exactly the plain run's output; the extra text is
+   tagged, and only the program's own lines appear in the plain run *)
+Theorem C19_print_lines : forall name src d t s,
+  filter is_print (io_out (snd (interpret name src d t s))) = io_out (snd (interpret name src false false false)).
+Proof. exact OptionsProofs.C19_print_lines. Qed.
+Print Assumptions C19_print_lines.
+
+Theorem C19_plain_only_prints : forall name src,
+  Forall (fun e => fst e = OPrint) (io_out (snd (interpret name src false false false))).
+Proof. exact plain_output_only_prints. Qed.
+Print Assumptions C19_plain_only_prints.
+
+(* the trace lists exactly the instructions executed, as many as the statistics report
+   (two lines each: the stack and the instruction) *)
+Theorem C19_trace_count : forall p,
+  let rr := execute p true false in
+  match rr_res rr with
+  | VOk | VErr _ _ | VInternal _ => count is_trace (rr_out rr) = 2 * opsRead (rr_vm rr)
+  | VPanic _ => True
+  end.
+Proof. exact OptionsProofs.C19_trace_count. Qed.
+Print Assumptions C19_trace_count.
+
+Theorem C19_no_trace_unless_asked : forall p s, count is_trace (rr_out (execute p false s)) = 0.
+Proof. exact C19_no_trace_lines. Qed.
+Print Assumptions C19_no_trace_unless_asked.
+
+(* statistics: exactly the 6 parser lines and the 4 VM lines, only when asked for *)
+Theorem C19_stats_lines_execute : forall p t s,
+  let rr := execute p t s in
+  filter is_stats (rr_out rr) = (if s then map (fun l => (OStats, l)) (xstats_lines (rr_vm rr)) else [])
+  /\ count is_stats (rr_out rr) = (if s then 4 else 0).
+Proof. exact OptionsProofs.C19_stats_lines_execute. Qed.
+Print Assumptions C19_stats_lines_execute.
+
+(* the trace hook cannot influence execution: for any hook that emits no program lines *)
+Theorem C19_hook_irrelevant : forall fuel p tr m,
+  (forall m, Forall (fun e => fst e <> OPrint) (tr m)) ->
+  let (m1, r1) := run_fuel fuel p tr m in
+  let (m0, r0) := run_fuel fuel p (fun _ => []) m in
+  r1 = r0 /\ same_but_out m1 m0 /\ prints m1 = prints m0.
+Proof. exact run_trace_irrelevant. Qed.
+Print Assumptions C19_hook_irrelevant.
+
+(* non-vacuity: a program that prints, traces 9 instructions and reports 10 statistics lines *)
 Example C19_example :
-  pr_ok (parse_whole (bs "input") (bs "var x = 1 print x + 2 * 3")) = true.
+  let '(_, io) := interpret (bs "input") (bs "var x = 1 print x + 2 * 3") true true true in
+  match io with
+  | IRun o rr => (count is_trace o, opsRead (rr_vm rr), count is_stats o, count is_print o) = (18, 9, 10, 1)
+  | _ => False
+  end.
 Proof. vm_compute. reflexivity. Qed.
-Print Assumptions C19_example.
